@@ -32,6 +32,7 @@ func (c Cfg) N(quick, thorough int) int {
 var streams = map[string]func(Cfg){}
 
 func main() {
+	runEarlyHooks() // daemon re-exec roles (C20) must be served before anything else
 	if len(os.Args) < 5 {
 		fmt.Fprintln(os.Stderr, "usage: harness <stream> <quick|thorough> <seed> <outdir> [replay]")
 		os.Exit(2)
